@@ -626,7 +626,16 @@ func (r *Run) execLib(op *OpDesc, c *Call) []*Violation {
 	}
 
 	// --- frame invariant (C11) ---
-	vs = append(vs, r.frame(op, c, pre, ops, bPre, sliceHdrS, sliceHdrP)...)
+	fvs := r.frame(op, c, pre, ops, bPre, sliceHdrS, sliceHdrP)
+	vs = append(vs, fvs...)
+	if op.Fallible {
+		// "no setter ever modifies its input": element arguments of SetExtendedCoordinates
+		for _, fv := range fvs {
+			if strings.Contains(fv.Detail, "argument") {
+				add(r.viol("C14", "setter-modified-input", op.Name+"/argument", fv.Detail))
+			}
+		}
+	}
 	if r.armed("C19") {
 		// a library call must not reach into values handed out earlier
 		for i, l := range r.Ledger[:len(ledgerPre)] {
